@@ -136,15 +136,15 @@ type Proc struct {
 }
 
 type World struct {
-	root    *node
-	Hist    []Event
-	Faults  []*Fault
-	opSeen  map[string]int
-	Procs   []*Proc
-	cur     *Proc
-	Yield   func(p *Proc) // scheduler hook, called before every operation
-	Clock   int64         // simulated nanoseconds; advanced on every operation
-	Foreign func(w *World, action, arg string)
+	root        *node
+	Hist        []Event
+	Faults      []*Fault
+	opSeen      map[string]int
+	Procs       []*Proc
+	cur         *Proc
+	Yield       func(p *Proc) // scheduler hook, called before every operation
+	Clock       int64         // simulated nanoseconds; advanced on every operation
+	Foreign     func(w *World, action, arg string)
 	ForeignMode bool // Put marks what it creates as foreign (created = -1)
 }
 
